@@ -596,6 +596,9 @@ func (bc *BlockChain) verifyAllSideChainBlocks(chain types.Blocks) (err error) {
 		return consensus.ErrUnknownAncestor
 	}
 	parents := []*types.Block{parent}
+	// The blocks of the side chain are stored only after all of them are verified. While they are executed,
+	// the already verified ones (the ancestors of the block in hand) are known through this view.
+	view := &sideChainView{BlockChain: bc, pending: make(map[common.Hash]*types.Block)}
 
 	//common var
 	var lookBackHeader *types.Header
@@ -705,7 +708,12 @@ func (bc *BlockChain) verifyAllSideChainBlocks(chain types.Blocks) (err error) {
 		//verify block.
 		// Notice: Here we can't use bc.Validator().ValidateBody(b), because ValidateBody will check if the parent block is has state in canonical chain.
 		// just to process the transactions and then validate the result
-		result, err := bc.processor.Process(yp, b, stateDb, bc.vmConfig, bc.detailDb.NewRecorder())
+		var result *types.ProcessResult
+		if sp, ok := bc.processor.(*StateProcessor); ok {
+			result, err = sp.processOn(view, yp, b, stateDb, bc.vmConfig, bc.detailDb.NewRecorder())
+		} else {
+			result, err = bc.processor.Process(yp, b, stateDb, bc.vmConfig, bc.detailDb.NewRecorder())
+		}
 		if err != nil {
 			logging.Error("verifyAllSideChainBlocks Process failed.", "number", b.NumberU64())
 			return err
@@ -718,11 +726,50 @@ func (bc *BlockChain) verifyAllSideChainBlocks(chain types.Blocks) (err error) {
 
 		//append parent for next block
 		parents = append(parents, b)
+		view.pending[b.Hash()] = b
 		if i <= maxCachesIndex {
 			caches = append(caches, stateDb.Copy())
 		}
 	}
 
+	return nil
+}
+
+// sideChainView is the chain as a block of a side chain under verification sees it: the BlockChain, plus the
+// verified blocks of that side chain which are not in the database yet. Only lookups by hash are extended
+// (a hash names one block whatever the canonical chain is); they consult the database first.
+type sideChainView struct {
+	*BlockChain
+	pending map[common.Hash]*types.Block
+}
+
+func (v *sideChainView) GetBlock(hash common.Hash, number uint64) *types.Block {
+	if b := v.BlockChain.GetBlock(hash, number); b != nil {
+		return b
+	}
+	if b := v.pending[hash]; b != nil && b.NumberU64() == number {
+		return b
+	}
+	return nil
+}
+
+func (v *sideChainView) GetHeader(hash common.Hash, number uint64) *types.Header {
+	if h := v.BlockChain.GetHeader(hash, number); h != nil {
+		return h
+	}
+	if b := v.pending[hash]; b != nil && b.NumberU64() == number {
+		return b.Header()
+	}
+	return nil
+}
+
+func (v *sideChainView) GetHeaderByHash(hash common.Hash) *types.Header {
+	if h := v.BlockChain.GetHeaderByHash(hash); h != nil {
+		return h
+	}
+	if b := v.pending[hash]; b != nil {
+		return b.Header()
+	}
 	return nil
 }
 
